@@ -579,7 +579,10 @@ def _mapping_from_score_matrix(score_matrix, algorithm='optimal'):
             # results.
             for permutation in itertools.permutations(range(K)):
                 score = sum(score_matrix[(*f, range(K), permutation)])
-                if score > best_score:
+                # The total score of finite entries can overflow to -inf
+                # (e.g. log-masks clipped to the lowest float): the first
+                # permutation is then as good as any other.
+                if best_permutation is None or score > best_score:
                     best_score = score
                     best_permutation = permutation
             mapping[(slice(None), *f)] = best_permutation
